@@ -268,8 +268,11 @@ def random_network(rng, quick=True, force=None):
             if nd["type"] == "junction" and rng.random() < 0.2:
                 nd["required_pressure"] = _r(rng, 8, 35, 2)
                 nd["minimum_pressure"] = _r(rng, 0, 3, 2)
-    return {"nodes": nodes, "links": links, "patterns": patterns, "curves": curves, "options": opts,
+    spec = {"nodes": nodes, "links": links, "patterns": patterns, "curves": curves, "options": opts,
             "hw_approx": hw_approx, "features": feat}
+    if any(l["type"] == "valve" for l in links) and rng.random() < 0.5:
+        add_setting_controls(rng, spec, p=0.7)
+    return spec
 
 
 def build_wn(wntr, spec):
@@ -331,6 +334,18 @@ def build_wn(wntr, spec):
         lk = nd.get("leak")
         if lk:
             wn.get_node(nd["name"]).add_leak(wn, area=lk["area"], discharge_coeff=lk["cd"], start_time=lk["start"], end_time=lk["end"])
+    # time controls / rules that change a valve's SETTING during the run (TCV loss coefficient, PRV / PSV pressure, FCV flow)
+    if spec.get("controls"):
+        import wntr.network.controls as CT
+
+        for i, c in enumerate(spec["controls"]):
+            link = wn.get_link(c["link"])
+            act = CT.ControlAction(link, "setting", c["value"])
+            cond = CT.SimTimeCondition(wn, "=", int(c["time"]))
+            if c.get("kind") == "rule":
+                wn.add_control("setrule%d" % i, CT.Rule(cond, [act], name="setrule%d" % i))
+            else:
+                wn.add_control("setctl%d" % i, CT.Control(cond, act, name="setctl%d" % i))
     # post-construction edits of the topology (C01 reversal family): wntr.morph.link.reverse_link and the end-node setters
     for e in spec.get("edits", []):
         if e["op"] == "reverse":
@@ -344,6 +359,31 @@ def build_wn(wntr, spec):
     # add_valve stores `initial_status` only; the documented way to make a model ready to (re)run
     wn.reset_initial_values()
     return wn
+
+
+def add_setting_controls(rng, spec, p=1.0):
+    """give (with probability p each) every valve a time control or rule that changes its setting at a later hydraulic step"""
+    o = spec["options"]
+    hyd, dur = o["hydraulic_timestep"], o["duration"]
+    if dur < hyd:
+        return spec
+    ctl = spec.setdefault("controls", [])
+    for l in spec["links"]:
+        if l["type"] != "valve" or rng.random() > p:
+            continue
+        vt, s0 = l["valve_type"], l["setting"]
+        if vt == "TCV":
+            new = round(s0 * rng.choice([10.0, 0.1, 3.0]) + rng.choice([0.0, 5.0]), 3)
+        elif vt == "FCV":
+            new = round(s0 * rng.uniform(0.4, 1.4), 6)
+        else:
+            new = round(s0 * rng.uniform(0.6, 1.08), 2)
+        k = rng.randint(1, max(1, dur // hyd))
+        ctl.append({"link": l["name"], "value": new, "time": k * hyd, "kind": rng.choice(["control", "control", "rule"])})
+        if rng.random() < 0.4 and (k + 1) * hyd <= dur:
+            ctl.append({"link": l["name"], "value": s0, "time": (k + 1) * hyd, "kind": "control"})
+    spec.setdefault("features", {})["setting_controls"] = bool(ctl)
+    return spec
 
 
 def effective_links(spec):
@@ -541,5 +581,8 @@ def scenario_network(rng, name, variant=0):
                  {"name": "PU1", "type": "pump", "start": "R0", "end": "J0", "pump_type": "HEAD", "curve": "c1", "initial_status": "OPEN"},
                  {"name": "PU2", "type": "pump", "start": "J0", "end": "J1", "pump_type": "HEAD", "curve": "c2", "initial_status": "OPEN"},
                  _pipe("P1", "J0", "J1", L=400.0, d=0.2, cv=True), _pipe("P2", "J1", "J2"), _pipe("P3", "J2", "T0", L=250.0)]
-    return {"nodes": nodes, "links": links, "patterns": pats, "curves": curves, "options": opts, "hw_approx": approx,
+    spec = {"nodes": nodes, "links": links, "patterns": pats, "curves": curves, "options": opts, "hw_approx": approx,
             "features": {"scenario": name}}
+    if name in ("psv", "prv", "fcv", "tcv", "tank_tank"):
+        add_setting_controls(rng, spec, p=0.85)
+    return spec
